@@ -450,7 +450,7 @@ def c15(tier, seed):
     c.required_counters = ["blocks_allocated", "blocks_freed_by_other_thread", "ults_default_stack", "ults_sized_stack",
                            "ults_user_stack", "stack_sizes_not_multiple_of_64", "ults_created_by_external_thread",
                            "ults_freed_by_other_kind_of_context", "stack_bytes_written_and_verified",
-                           "live_pairs_checked_disjoint"]
+                           "live_pairs_checked_disjoint", "concurrent_local_pool_destructions_verified"]
     return c
 
 
@@ -649,6 +649,12 @@ def c11(tier, seed):
         c.add(Run("h_units", "tsan", ["--seed", seed + 32, "--mode", mode, "--watchdog", 90, "--delay", profiles[0]] +
                   (["--scenarios", 3, "--rounds", 60] if mode == "susp" else ["--scenarios", 4, "--ops", 600]),
                   weight=4, tag="tsan-" + mode))
+    # a resumed ULT runs even when its stream is being joined while the resume is in flight (block scenarios of C06)
+    for i, s in enumerate(seeds(seed, 2 if q else 12, salt=9)):
+        c.add(Run("h_units", "mon", ["--seed", s, "--mode", "block", "--scenarios", 40 if q else 300, "--delay",
+                                     hammer("PUSH_BEFORE_LOCK", "RESUME_AFTER_PUSH", "SCHED_STOP_AFTER_SIZE",
+                                            "SUSPEND_AFTER_BLOCKED"), "--watchdog", 90 if q else 600],
+                  weight=4, tag="blockjoin%d" % i))
     c.nontrivial = lambda r: True
     c.required_counters = ["suspend_resume_round_trips", "resumed_by_external_thread", "resumed_by_ult_on_other_stream",
                            "op_yield_to", "op_thread_yield_to", "op_create_to", "op_revive_to", "op_suspend_to",
